@@ -78,6 +78,15 @@ pub fn run(f: &[&str]) -> String {
                         let vg = sym_vars(g.var_names().len());
                         let r = g.eval(&vg);
                         out.push_str(&format!("\th_nf={}\th={}\thvars={}\thtext={}", res_nf(&r, &t), res(r), strs(g.var_names()), hex(g.unparse())));
+                        // serde round trip of a flat expression derived from conversions
+                        match serde_json::to_string(&g).ok().and_then(|js| serde_json::from_str::<F>(&js).ok()) {
+                            None => out.push_str("\tsj=E"),
+                            Some(g2) => {
+                                let v2 = sym_vars(g2.var_names().len());
+                                let r2 = g2.eval(&v2);
+                                out.push_str(&format!("\tsj_nf={}\tsj={}\tsjvars={}", res_nf(&r2, &t), res(r2), strs(g2.var_names())));
+                            }
+                        }
                     }
                     Ok(Either::De(d)) => {
                         let vg = sym_vars(d.var_names().len());
